@@ -607,7 +607,8 @@ def run(ctx):
             if t.startswith("scaled:2^"):
                 scale_e = int(t[len("scaled:2^"):])
         if abs(scale_e) > 100:      # thresholds reach the kernel as C float
-            data = data * 2.0 ** (-scale_e + (30 if scale_e > 0 else -30))
+            data = clone(np.asarray(data, dtype=np.float64)) \
+                * 2.0 ** (-scale_e + (30 if scale_e > 0 else -30))
             scale_e = 30 if scale_e > 0 else -30
         N, n = data.shape
         hist = []
